@@ -3,13 +3,14 @@ From V Require Import Base.Util Gql.Ast C05.Model C05.Spec C05.Witness C05.Proof
 
 Check (C05_complete : forall doc, spec_valid doc = true -> check_doc doc = []).
 Check (C05_complete_extra_default_accepted : spec_valid Witness.w_extra_default = true /\ check_doc Witness.w_extra_default = []).
-Check (C05_sound : forall doc, check_doc doc = [] -> unique_names doc = true -> forall r, rule_ok r doc = true).
+Check (C05_sound : forall doc, check_doc doc = [] -> unique_type_names doc = true -> builtins_not_redefined doc = true ->
+                   forall r, rule_ok r doc = true).
 Check (C05_exact : forall doc, wf_doc doc = true -> (check_doc doc = [] <-> forall r, rule_ok r doc = true)).
 Check (C05_sound_local : forall doc, check_doc doc = [] ->
   ok_reserved doc = true /\ ok_dup_field doc = true /\ ok_dup_arg doc = true /\ ok_dup_input_field doc = true /\
   ok_dup_enum_value doc = true /\ ok_dup_union_member doc = true /\ ok_input_in_output doc = true /\
   ok_output_in_input doc = true /\ ok_directive_unknown doc = true /\ ok_directive_misplaced doc = true /\
-  ok_directive_repeated doc = true /\ ok_directive_args doc = true).
+  ok_directive_repeated doc = true /\ ok_directive_args doc = true /\ ok_dup_directive doc = true).
 Check (C05_sound_directive_args_int_range_rejected :
   rule_ok RDirectiveArgs Witness.w_int_range = false /\ check_doc Witness.w_int_range <> []).
 Check (C05_sound_directive_recursive_nested_rejected :
@@ -32,7 +33,8 @@ Check (C05_resolve_rejects_same_kind_dup : forall doc, same_kind_dup doc = true 
 Check (eq_refl : rule_ok = rule_ok_gen true).
 Check (eq_refl : rule_ok RDirectiveArgs = ok_directive_args).
 Check (eq_refl : rule_ok RDirectiveRecursive = ok_directive_recursive).
-Check (eq_refl : wf_doc = fun doc => unique_names doc && ok_app_args_nonempty doc).
+Check (eq_refl : wf_doc = fun doc => unique_type_names doc && builtins_not_redefined doc && ok_app_args_nonempty doc).
+Check (eq_refl : rule_ok RDupDirective = ok_dup_directive).
 Print Assumptions C05_complete.
 Print Assumptions C05_complete_extra_default_accepted.
 Print Assumptions C05_sound.
